@@ -127,6 +127,23 @@ fn main() {
             println!("{}", wl::expert::run(seed, shard, count).to_string());
             0
         }
+        "expert-faults" => {
+            quiet_panics();
+            let get = |name: &str| args.iter().position(|a| a == name).and_then(|i| args.get(i + 1)).cloned();
+            let seed: u64 = get("--seed").and_then(|s| s.parse().ok()).unwrap_or(1);
+            let shard: u64 = get("--shard").and_then(|s| s.parse().ok()).unwrap_or(0);
+            let count: u64 = get("--count").and_then(|s| s.parse().ok()).unwrap_or(100);
+            let progress = get("--progress");
+            println!("{}", wl::expert::run_faults(seed, shard, count, progress.as_deref()).to_string());
+            0
+        }
+        "expert-fault-one" => {
+            if std::env::var("VH_LOUD").is_err() { quiet_panics(); }
+            match wl::expert::fault_one(args[2].parse().unwrap(), args[3].parse().unwrap(), args[4].parse().unwrap()) {
+                Some(m) => { println!("VIOLATION C13 {m}"); 1 }
+                None => 0,
+            }
+        }
         "expert-one" => {
             if std::env::var("VH_LOUD").is_err() { quiet_panics(); }
             let o = wl::expert::run_history(args[2].parse().unwrap());
@@ -158,6 +175,17 @@ fn main() {
                 _ => wl::symdiff::run_random(args[3].parse().unwrap(), args[4].parse().unwrap()),
             };
             println!("{}", j.to_string());
+            0
+        }
+        "leaks" => {
+            quiet_panics();
+            let j = wl::leaks::run(&args[2]);
+            let bad = j.to_string().contains("\"property\"");
+            println!("{}", j.to_string());
+            if bad && args.get(3).map(|s| s.as_str()) == Some("--replay") { 1 } else { 0 }
+        }
+        "list-leak-shapes" => {
+            for s_ in wl::leaks::SHAPES { println!("{s_}"); }
             0
         }
         "memo" => {
